@@ -264,7 +264,7 @@ _THROUGH = re.compile(r"(Deref>::deref$|DerefMut>::deref_mut$|AsRef<.*>>::as_ref
 # --------------------------------------------------------------------------- bodies
 
 class Body:
-    __slots__ = ("r", "id", "name", "short", "kind", "file", "line", "blocks", "locals", "argc", "_succ", "_pred",
+    __slots__ = ("r", "id", "name", "short", "crate", "kind", "file", "line", "blocks", "locals", "argc", "_succ", "_pred",
                  "_dom", "_defs", "prog", "_reach", "_moved")
 
     def __init__(self, r, prog):
@@ -273,6 +273,7 @@ class Body:
         self.id = r["id"]
         self.name = r["name"]
         self.short = short_name(self.name)
+        self.crate = self.id.split("::", 1)[0]
         self.kind = r["kind"]
         self.file = r["file"]
         self.line = r["line"]
@@ -547,6 +548,7 @@ class Program:
         self._callers = None
         self._callees = {}
         self._trait_impls = None
+        self._conv = None
         seen_crates = set()
         files = sorted(glob.glob(os.path.join(factdir, "*.jsonl")))
         if not files:
@@ -650,6 +652,34 @@ class Program:
             self._trait_impls = m
         return self._trait_impls
 
+    def conversion_impl(self, dst_ty, src_ty):
+        """id of `<F as From<E>>::from` for Result<_, F> <- Result<Infallible, E>, if it is a workspace impl"""
+        def err_of(t):
+            if not t.startswith("core::result::Result<"):
+                return None
+            inner = t[len("core::result::Result<"):-1]
+            depth = 0
+            for k, c in enumerate(inner):
+                if c in "<([":
+                    depth += 1
+                elif c in ">)]" and inner[k - 1] != "-":
+                    depth -= 1
+                elif c == "," and depth == 0:
+                    return inner[k + 1:].strip()
+            return None
+        fty, ety = err_of(dst_ty), err_of(src_ty)
+        if not fty or not ety or fty == ety:
+            return None
+        if self._conv is None:
+            self._conv = {}
+            for im in self.impls:
+                tr = im.get("trait", "")
+                if tr.startswith("core::convert::From<"):
+                    for it in im["items"]:
+                        if it["n"] == "from":
+                            self._conv[(im["self_ty"], tr[len("core::convert::From<"):-1])] = it["id"]
+        return self._conv.get((fty, ety))
+
     # -- call graph
     def callees(self, body, cha=True, closures=True, refs=True):
         """list of (callee_id, kind, block) with kind in call|cha|closure|ref|drop"""
@@ -676,6 +706,12 @@ class Program:
                         out.append((f["orig"], "cha", i))
                 elif f.get("res") == "indirect":
                     pass
+                nm = f.get("name", "")
+                if nm.endswith("::from_residual") and len(f.get("gargs", [])) >= 2:
+                    # `?` converting the error through a workspace `impl From<E> for F`
+                    conv = self.conversion_impl(f["gargs"][0], f["gargs"][1])
+                    if conv:
+                        out.append((conv, "conv", i))
                 if refs:
                     for fn in f.get("fns", []):
                         out.append((fn, "ref", i))
